@@ -19,11 +19,18 @@ impl Gc {
         ensures gc_gen(r).0 == gc_gen(*self).0 + 1
     { unimplemented!() }
 }
-pub struct Context { pub gc: Gc }
+// stack.rs Stack projected on its limit
+pub struct StackLim { pub max_stack_size: u32 }
+impl StackLim {
+    pub fn max_stack_size(&self) -> (r: u32) ensures r == self.max_stack_size { self.max_stack_size }
+    pub fn set_max_stack_size(&mut self, max_stack_size: u32) ensures final(self).max_stack_size == max_stack_size { self.max_stack_size = max_stack_size; }
+}
+pub struct Context { pub gc: Gc, pub stack: StackLim }
 impl Context {
-    // Context::new(gc): a fresh context around this collector
+    // Context::new(gc): a fresh context around this collector; its stack is Stack::new(), whose limit is VmIndex::MAX
+    // (both struct literals, ASSUMED)
     #[verifier::external_body]
-    pub fn new(gc: Gc) -> (r: Context) ensures r.gc == gc { unimplemented!() }
+    pub fn new(gc: Gc) -> (r: Context) ensures r.gc == gc, r.stack.max_stack_size == u32::MAX { unimplemented!() }
 }
 #[verifier::external_body] pub struct Roots { _p: () }
 #[verifier::external_body] pub struct Children { _p: () }
